@@ -109,6 +109,9 @@ var empty = &lib.T{}
 type target struct {
 	v *resource.Value
 	c *resource.Collection
+	// the caller's extra-writable mask objects, one per path, kept and passed again by later writes to this target
+	// (one option per object): whatever a write does with them, they are the caller's
+	xm map[string]*fieldmaskpb.FieldMask
 }
 
 func newTarget(coll bool, w *fieldmaskpb.FieldMask, stored proto.Message) target {
@@ -117,12 +120,12 @@ func newTarget(coll bool, w *fieldmaskpb.FieldMask, stored proto.Message) target
 		opts = append(opts, resource.WithWritableFields(w))
 	}
 	if coll {
-		return target{c: resource.NewCollection(append(opts, resource.WithInitialRecord("id", stored), resource.WithInitialRecord("other", proto.Clone(stored)))...)}
+		return target{xm: map[string]*fieldmaskpb.FieldMask{}, c: resource.NewCollection(append(opts, resource.WithInitialRecord("id", stored), resource.WithInitialRecord("other", proto.Clone(stored)))...)}
 	}
 	if stored == nil {
-		return target{v: resource.NewValue(opts...)} // a Value that was never given a value: its first write
+		return target{xm: map[string]*fieldmaskpb.FieldMask{}, v: resource.NewValue(opts...)} // a Value that was never given a value: its first write
 	}
-	return target{v: resource.NewValue(append(opts, resource.WithInitialValue(stored))...)}
+	return target{xm: map[string]*fieldmaskpb.FieldMask{}, v: resource.NewValue(append(opts, resource.WithInitialValue(stored))...)}
 }
 
 func (g target) get(id string) proto.Message {
@@ -182,7 +185,15 @@ func step(g target, id string, t tuple) (string, string) {
 	if t.XAll {
 		wopts = append(wopts, resource.WithAllFieldsWritable())
 	} else if t.X != nil {
-		wopts = append(wopts, resource.WithMoreWritablePaths(t.X...))
+		for _, p := range t.X {
+			if g.xm[p] == nil {
+				g.xm[p] = lib.FM(p)
+			}
+			wopts = append(wopts, resource.WithMoreWritableFields(g.xm[p]))
+		}
+		if len(t.X) == 0 {
+			wopts = append(wopts, resource.WithMoreWritablePaths())
+		}
 	}
 	if t.R != nil {
 		wopts = append(wopts, resource.WithResetPaths(t.R...))
@@ -402,7 +413,7 @@ func main() {
 			x   mask
 			all bool
 		}
-		Xs := []xo{{nil, false}, {mask{"default_string"}, false}, {mask{"default_nested_message.a", "default_foreign_message"}, false}, {nil, true}}
+		Xs := []xo{{nil, false}, {mask{"default_string"}, false}, {mask{"default_nested_message.a", "default_foreign_message"}, false}, {mask{"default_nested_message.a"}, false}, {nil, true}}
 		n := len(cat)
 		Wrs := []int{4, n - 1}
 		Ss := []int{n - 1}
